@@ -233,3 +233,64 @@ func Abort(kind string) {
 	x.mu.Unlock()
 	runtime.Goexit()
 }
+
+// ExploreIterative is iterative context bounding: it explores body with
+// preemption bound from, from+1, ..., to (to < 0: then unbounded), each with a
+// fresh cache, as long as the previous bound completed before the deadline.
+// It returns the accumulated statistics and the largest bound that was
+// completed (from-1 if not even the first one was; -1 stands for "unbounded
+// completed" only when to < 0 and everything finished — see unbounded).
+func ExploreIterative(opts Options, from, to int, body func(), check func(r Result) bool) (total Stats, completed int, unbounded bool) {
+	completed = from - 1
+	bounds := []int{}
+	if to < 0 {
+		for b := from; b <= 4; b++ {
+			bounds = append(bounds, b)
+		}
+		bounds = append(bounds, -1)
+	} else {
+		for b := from; b <= to; b++ {
+			bounds = append(bounds, b)
+		}
+	}
+	total.Complete = true
+	for _, b := range bounds {
+		o := opts
+		o.PreemptionBound = b
+		st := Explore(o, body, check)
+		total.Executions += st.Executions
+		total.Pruned += st.Pruned
+		total.Transitions += st.Transitions
+		total.Skipped += st.Skipped
+		total.NotOwned += st.NotOwned
+		total.Deadlocks += st.Deadlocks
+		total.ChoicePoints += st.ChoicePoints
+		if st.States > total.States {
+			total.States = st.States
+		}
+		if st.MaxDepth > total.MaxDepth {
+			total.MaxDepth = st.MaxDepth
+		}
+		if st.MaxPreempts > total.MaxPreempts {
+			total.MaxPreempts = st.MaxPreempts
+		}
+		if st.MaxGoroutines > total.MaxGoroutines {
+			total.MaxGoroutines = st.MaxGoroutines
+		}
+		if st.HarnessError != "" {
+			total.HarnessError = st.HarnessError
+			total.Complete = false
+			return
+		}
+		if !st.Complete {
+			total.Complete = false
+			return
+		}
+		if b < 0 {
+			unbounded = true
+		} else {
+			completed = b
+		}
+	}
+	return
+}
